@@ -200,7 +200,7 @@ func buildC07(tier string) *core.Plan {
 
 	// $required chains: satisfied only by an upper layer that actually overrides it
 	reqBases := gen.Filter(gen.Trees(gen.Alphabet{Scalars: []any{1, "x", "$required"}, Keys: []string{"a", "b"}, MaxList: 2, MaxMap: 2}, nb+1),
-		func(v any) bool { return gen.IsMap(v) && c07HasValue(v, "$required") })
+		func(v any) bool { return (gen.IsMap(v) || gen.IsList(v)) && c07HasValue(v, "$required") })
 	required := core.Space{Name: "required-chains", N: int64(len(reqBases)),
 		Desc: func(i int64) any { return map[string]any{"lower": reqBases[i], "uppers": "every subset of the $required map-value positions overridden with 7"} },
 		Run: func(c *core.Ctx, i int64) {
@@ -222,6 +222,27 @@ func buildC07(tier string) *core.Plan {
 					}
 				}
 			})
+			// an upper layer that is an empty document mentions nothing, so it satisfies nothing
+			{
+				c.Eval()
+				c.Trans(3)
+				c.NontrivialSub()
+				w := core.Canon(lower) + " <- (empty document)"
+				p, err := layerAPI(lower, nil)
+				if err == nil {
+					outs, oerr := p.OutputDocuments()
+					c.Validated()
+					if oerr == nil {
+						c.Outcome("REQUIRED-NOT-ENFORCED")
+						c.Fail("required-chain", "empty-upper-layer-satisfies-required", w, map[string]any{"output": outs})
+						return
+					}
+				}
+				c.Outcome("unsatisfied-refused")
+			}
+			if gen.IsList(lower) {
+				return // list-rooted lower layers: only the empty-upper-document case applies
+			}
 			for mask := 0; mask < 1<<len(pos); mask++ {
 				upper := map[string]any{}
 				want := core.Clone(lower)
